@@ -65,9 +65,14 @@ def main():
                 r = sh([sys.executable, os.path.join(V, "bin/check"), pid, "--tier", tier], env=env, cwd=V)
                 first = [l for l in r.stdout.splitlines() if l.startswith("  key=")]
                 res["checks"][pid] = {"exit": r.returncode, "caught": r.returncode == 1, "first": (first[0][:220] if first else r.stdout[-200:]), "wall_s": round(time.time() - t0, 1)}
+            for pid in m.get("silent", []):
+                t0 = time.time()
+                env = dict(os.environ, VERIF_REPO=wt)
+                r = sh([sys.executable, os.path.join(V, "bin/check"), pid, "--tier", tier], env=env, cwd=V)
+                res["checks"][pid] = {"exit": r.returncode, "caught": r.returncode == 0, "expected": "silent", "first": r.stdout.strip().splitlines()[-1][:220] if r.stdout.strip() else "", "wall_s": round(time.time() - t0, 1)}
             results[name] = res
             ok = all(c["caught"] for c in res["checks"].values())
-            print("%-32s %-7s %s | %s" % (name, "CAUGHT" if ok else "MISSED", res["suite"][:60], {p: c["exit"] for p, c in res["checks"].items()}), flush=True)
+            print("%-32s %-7s %s | %s" % (name, ("SILENT" if m.get("silent") else "CAUGHT") if ok else ("ALARMED" if m.get("silent") else "MISSED"), res["suite"][:60], {p: c["exit"] for p, c in res["checks"].items()}), flush=True)
         finally:
             sh(["git", "-C", "/repo", "worktree", "remove", "--force", wt])
             shutil.rmtree(wt, ignore_errors=True)
